@@ -165,7 +165,7 @@ AEAD_encrypt(AEADObject *self, PyObject *args)
     if (!PyArg_ParseTuple(args, "y#y#K", &data, &data_len, &associated, &associated_len, &pn))
         return NULL;
 
-    if (data_len > PACKET_LENGTH_MAX) {
+    if (data_len > PACKET_LENGTH_MAX - AEAD_TAG_LENGTH) {
         PyErr_SetString(CryptoError, "Invalid payload length");
         return NULL;
     }
@@ -296,8 +296,22 @@ HeaderProtection_apply(HeaderProtectionObject *self, PyObject *args)
     if (!PyArg_ParseTuple(args, "y#y#", &header, &header_len, &payload, &payload_len))
         return NULL;
 
+    if (header_len < 1) {
+        PyErr_SetString(CryptoError, "Invalid header length");
+        return NULL;
+    }
+
     int pn_length = (header[0] & 0x03) + 1;
     int pn_offset = header_len - pn_length;
+
+    if (pn_offset < 1 || header_len + payload_len > PACKET_LENGTH_MAX) {
+        PyErr_SetString(CryptoError, "Invalid header length");
+        return NULL;
+    }
+    if (payload_len < PACKET_NUMBER_LENGTH_MAX - pn_length + SAMPLE_LENGTH) {
+        PyErr_SetString(CryptoError, "Invalid payload length");
+        return NULL;
+    }
 
     res = HeaderProtection_mask(self, payload + PACKET_NUMBER_LENGTH_MAX - pn_length);
     CHECK_RESULT(res != 0);
@@ -323,10 +337,20 @@ HeaderProtection_remove(HeaderProtectionObject *self, PyObject *args)
 {
     const unsigned char *packet;
     Py_ssize_t packet_len;
-    int pn_offset, res;
+    unsigned int pn_offset;
+    int res;
 
     if (!PyArg_ParseTuple(args, "y#I", &packet, &packet_len, &pn_offset))
         return NULL;
+
+    if (pn_offset < 1 || pn_offset > PACKET_LENGTH_MAX - PACKET_NUMBER_LENGTH_MAX) {
+        PyErr_SetString(CryptoError, "Invalid packet number offset");
+        return NULL;
+    }
+    if (packet_len < (Py_ssize_t)pn_offset + PACKET_NUMBER_LENGTH_MAX + SAMPLE_LENGTH) {
+        PyErr_SetString(CryptoError, "Invalid packet length");
+        return NULL;
+    }
 
     res = HeaderProtection_mask(self, packet + pn_offset + PACKET_NUMBER_LENGTH_MAX);
     CHECK_RESULT(res != 0);
@@ -346,7 +370,7 @@ HeaderProtection_remove(HeaderProtectionObject *self, PyObject *args)
         pn_truncated = self->buffer[pn_offset + i] | (pn_truncated << 8);
     }
 
-    return Py_BuildValue("y#I", self->buffer, pn_offset + pn_length, pn_truncated);
+    return Py_BuildValue("y#I", self->buffer, (Py_ssize_t)(pn_offset + pn_length), pn_truncated);
 }
 
 static PyMethodDef HeaderProtection_methods[] = {
